@@ -35,6 +35,15 @@ impl RustDocument {
         me
     }
 
+    /// Like `init`, for a document that is imported by another one: the namespaces the importer
+    /// already knows keep their abbreviation and module, and new ones are made unique against them.
+    pub fn init_with_known_namespaces(doc: &Document, known: &[Rc<Namespace>]) -> Self {
+        let mut me = Self::empty();
+        me.namespaces = known.to_vec();
+        collect_namespaces_on_node(doc.root_element(), &mut me);
+        me
+    }
+
     pub fn extend(&mut self, other: RustDocument) {
         // the prefixes of an imported file must not rebind the prefixes this file already uses
         for (prefix, namespace) in other.namespace_lookup {
@@ -124,7 +133,7 @@ impl RustDocument {
                 .find(|ns| ns.namespace == namespace)
                 .cloned()
                 .unwrap_or_else(|| {
-                    let abbreviation = make_abbreviated_namespace(namespace, &self.target_namespaces);
+                    let abbreviation = make_abbreviated_namespace(namespace, &self.namespaces);
                     let rust_mod_name = create_mod_name_for_namespace(&abbreviation);
 
                     Rc::new(Namespace {
